@@ -23,9 +23,11 @@ Ls(s) == <<"L", s>>
 Cm(f, args) == <<"C", f, args>>
 Un == <<"U">>
 Seqs(S, n) == UNION { [1..k -> S] : k \in 0..n }
-Atoms == { At(s) : s \in Seqs(Chars, 3) }
+CONSTANTS NA,      \* maximal atom length
+          NL       \* maximal list length
+Atoms == { At(s) : s \in Seqs(Chars, NA) }
 Elems == { At(<<"a">>), At(<<"E2">>), N(1) }
-Lists == { Ls(s) : s \in Seqs(Elems, 3) }
+Lists == { Ls(s) : s \in Seqs(Elems, NL) }
 Ints == { N(n) : n \in 0..3 }
 Code(c) == CASE c = "a" -> 97 [] c = "E2" -> 233 [] c = "J3" -> 26085
 Terms1 == { At(<<"a">>), N(1), At(<<>>) } \cup { Cm(f, s) : f \in {"f", "g"}, s \in [1..1 -> {At(<<"a">>), N(1)}] \cup [1..2 -> {At(<<"a">>), N(1)}] }
@@ -41,7 +43,7 @@ Tuples(pred) ==
   CASE pred = "atom_length" -> SetToSeq({ <<x, N(Len(x[2]))>> : x \in Atoms })
     [] pred = "atom_concat" -> SetToSeq(UNION { { <<At(SubSeq(w[2], 1, k)), At(SubSeq(w[2], k + 1, Len(w[2]))), w>> : k \in 0..Len(w[2]) } : w \in Atoms })
     [] pred = "sub_atom" -> SetToSeq({ <<w[1], N(w[2]), N(w[3]), N(Len(w[1][2]) - w[2] - w[3]), At(SubSeq(w[1][2], w[2] + 1, w[2] + w[3]))>> :
-                                        w \in { v \in Atoms \X (0..3) \X (0..3) : v[2] + v[3] <= Len(v[1][2]) } })
+                                        w \in { v \in Atoms \X (0..NA) \X (0..NA) : v[2] + v[3] <= Len(v[1][2]) } })
     [] pred = "atom_chars" -> SetToSeq({ <<x, Ls([i \in 1..Len(x[2]) |-> At(<<x[2][i]>>)])>> : x \in Atoms })
     [] pred = "atom_codes" -> SetToSeq({ <<x, Ls([i \in 1..Len(x[2]) |-> N(Code(x[2][i]))])>> : x \in Atoms })
     [] pred = "char_code" -> SetToSeq({ <<At(<<c>>), N(Code(c))>> : c \in Chars })
